@@ -88,6 +88,11 @@ def cases(tier, seed):
                                         p={"icode_prob": 0.2, "variant_prob": 0.3, "na_prob": 0.2, "waters": [0, 0, 2, 4]}):
         spec["kind"] = "run"
         out.append(spec)
+    # long stretches / whole chains of the real proteins
+    for spec in workload.long_cases(seed, 7 if tier == "quick" else 420, opts_fn=opts,
+                                    long_max=150 if tier == "quick" else 400):
+        spec["kind"] = "run"
+        out.append(spec)
     for rep in range(1 if tier == "quick" else 40):
         for spec in workload.lattice_cases(seed * 31 + rep, opts_fn=opts):
             spec["kind"] = "run"
